@@ -678,9 +678,41 @@ func (iv interval) String() string {
 
 // guardInterval computes the interval of integer value v implied by the must-facts at instruction at.
 func guardInterval(p *core.Prog, v ssa.Value, at ssa.Instruction) interval {
+	iv := intervalUnder(p.FactsAt(at), v)
+	// a value handed back by a helper together with a verdict - i64, small := smallInt(x) - is constrained by what holds
+	// inside the helper on the paths where it returns that verdict
+	if e, ok := stripConv(v).(*ssa.Extract); ok {
+		if call, ok := e.Tuple.(*ssa.Call); ok {
+			for f := range p.FactsAt(at) {
+				e2, ok := f.Cond.(*ssa.Extract)
+				if !ok || e2.Tuple != ssa.Value(call) || e2.Index == e.Index {
+					continue
+				}
+				cases := p.CalleeTupleCases(call, e2.Index, f.Val)
+				if len(cases) == 0 {
+					continue
+				}
+				lo, hi := math.Inf(1), math.Inf(-1)
+				for _, tc := range cases {
+					if e.Index >= len(tc.Rets) {
+						lo, hi = math.Inf(-1), math.Inf(1)
+						break
+					}
+					ci := intervalUnder(tc.Facts, tc.Rets[e.Index])
+					lo, hi = math.Min(lo, ci.lo), math.Max(hi, ci.hi)
+				}
+				iv.lo, iv.hi = math.Max(iv.lo, lo), math.Min(iv.hi, hi)
+			}
+		}
+	}
+	return iv
+}
+
+// intervalUnder computes the interval of integer value v implied by a fact set.
+func intervalUnder(fs core.FactSet, v ssa.Value) interval {
 	iv := interval{math.Inf(-1), math.Inf(1)}
 	v = stripConv(v)
-	for f := range p.FactsAt(at) {
+	for f := range fs {
 		b, ok := f.Cond.(*ssa.BinOp)
 		if !ok {
 			continue
